@@ -373,6 +373,48 @@ def run(prog: Program, res: Result) -> None:  # noqa: PLR0912, PLR0915
                                 res.ok("C12.R5", site, what, norm(prv.value))
                             else:
                                 res.fail("C12.R5", file=nc.file, line=js.lineno, qualname=f"{nc.name}.__str__", construct=f"{nc.name}: {closer} without wc[1]", message=f"{nc.name}.__str__ prints `{closer}` without the token's right whitespace-control marker", what=what)
+        # each opener's marker and the next closer's marker are the left and right marker of the same token
+        for js in [n for n in ast.walk(m.node) if isinstance(n, ast.JoinedStr)]:
+            seq: list[tuple[str, str, int]] = []
+            vals = js.values
+            for i, v in enumerate(vals):
+                if isinstance(v, ast.Constant) and isinstance(v.value, str):
+                    if v.value.endswith(("{%", "{{")) and i + 1 < len(vals) and isinstance(vals[i + 1], ast.FormattedValue):
+                        mm = re.fullmatch(r"(.+)\.wc\[(-?\d)\]", norm(vals[i + 1].value))
+                        if mm:
+                            seq.append(("open", mm.group(1), int(mm.group(2))))
+                    if (v.value.lstrip().startswith(("%}", "}}")) or v.value in ("%}", "}}")) and i > 0 and isinstance(vals[i - 1], ast.FormattedValue):
+                        mm = re.fullmatch(r"(.+)\.wc\[(-?\d)\]", norm(vals[i - 1].value))
+                        if mm:
+                            seq.insert(len(seq), ("close", mm.group(1), int(mm.group(2))))
+            # constants can hold a closer and the next opener at once ("%}…{%"): order within the f-string is close-then-open
+            seq_sorted: list[tuple[str, str, int]] = []
+            for i, v in enumerate(vals):
+                if isinstance(v, ast.Constant) and isinstance(v.value, str):
+                    if (v.value.lstrip().startswith(("%}", "}}")) or v.value in ("%}", "}}")) and i > 0 and isinstance(vals[i - 1], ast.FormattedValue):
+                        mm = re.fullmatch(r"(.+)\.wc\[(-?\d)\]", norm(vals[i - 1].value))
+                        if mm:
+                            seq_sorted.append(("close", mm.group(1), int(mm.group(2))))
+                    if v.value.endswith(("{%", "{{")) and i + 1 < len(vals) and isinstance(vals[i + 1], ast.FormattedValue):
+                        mm = re.fullmatch(r"(.+)\.wc\[(-?\d)\]", norm(vals[i + 1].value))
+                        if mm:
+                            seq_sorted.append(("open", mm.group(1), int(mm.group(2))))
+            pend: tuple[str, str, int] | None = None
+            for kind_, tok_, idx_ in seq_sorted:
+                if kind_ == "open":
+                    pend = (kind_, tok_, idx_)
+                    continue
+                if pend is None:
+                    continue
+                n_open += 1
+                site = f"{nc.file}:{js.lineno} {nc.name}.__str__"
+                what = f"{nc.name}: `{pend[1]}.wc[{pend[2]}]` … `{tok_}.wc[{idx_}]` are the left and right marker of one token"
+                ok_pair = pend[1] == tok_ and (pend[2], idx_) in ((0, 1), (0, -1), (2, 3), (2, -1))
+                if ok_pair:
+                    res.ok("C12.R5", site, what, "left marker after the opener, right marker before the closer")
+                else:
+                    res.fail("C12.R5", file=nc.file, line=js.lineno, qualname=f"{nc.name}.__str__", construct=f"{nc.name}: markers {pend[1]}.wc[{pend[2]}] / {tok_}.wc[{idx_}] around one tag", message=f"{nc.name}.__str__ prints a tag whose opening marker is `{pend[1]}.wc[{pend[2]}]` and whose closing marker is `{tok_}.wc[{idx_}]`: not the left and right marker of the same token, so str(template) moves or swaps whitespace control", what=what)
+                pend = None
     res.floor("C12.R5", "printed openers/closers", n_open, 60)
 
     # ------------------------------------------------------------------ R6 pickle
